@@ -38,7 +38,12 @@ SelX = U.union("SelX", dict(nothing=NonePair, sel=SelO))
 
 re_match = M.opaque("re_match", [Regex, STR], OptMo, impl=lambda rx, row: rx.match(row), note="re.Pattern.match(row)")
 groups = M.opaque("groups", [Mo], Key, impl=lambda m: m.groups(), note="re.Match.groups()")
-sel = M.opaque("sel", [Matches, Rules], SelX, impl=None, note="_select_match(matches, rules) (proved in specs.aclmatch)")
+def _sel_impl(matches, rules):
+    from annet.annlib import patching
+    return patching._select_match(matches, rules)
+
+
+sel = M.opaque("sel", [Matches, Rules], SelX, impl=_sel_impl, note="_select_match(matches, rules) (proved in specs.aclmatch)")
 
 Regex.methods = {"match": lambda ex, recv, recv_node, args, kwargs, st, node: V(OptMo, re_match.decl()(recv.t, coerce(args[0], STR).t))}
 Mo.methods = {"groups": lambda ex, recv, recv_node, args, kwargs, st, node: V(Key, groups.decl()(recv.t))}
@@ -118,7 +123,7 @@ M.contract(F, "_match_row_to_rules", params=dict(row=STR, rules=Rules), ret=SelX
            ensures=["result == (sel(coll(items_of(rules['local'], False) + items_of(rules['global'], True), row), rules) "
                     "if (not ign(items_of(rules['local'], False) + items_of(rules['global'], True), row) and "
                     "len(coll(items_of(rules['local'], False) + items_of(rules['global'], True), row)) > 0) else (None, None))"],
-           canaries=["result == (None, None)"], properties=["C03"])
+           canaries=["result == (None, None)"], properties=["C03"], inputs=_frm_inputs)
 
 _q = {c.qual: c for c in M.contracts}
 _q["_match_row_to_rules"].calls["_select_match"] = _q["<_select_match>"]
